@@ -60,7 +60,7 @@ def run(ctx):
     orig_svd = np.linalg.svd
     def rec_svd(a, *args, **kw):
         r = orig_svd(a, *args, **kw); rec['last'] = (np.array(r[0]), np.array(r[1]), np.array(r[2])); return r
-    shapes = [(1, 1), (2, 2), (3, 3), (3, 2), (2, 3), (1, 3), (4, 2)] + ([] if ctx.quick() else [(4, 4), (2, 4), (5, 3), (3, 5), (4, 1), (6, 6)])
+    shapes = [(1, 1), (2, 2), (3, 3), (3, 2), (2, 3), (1, 3), (4, 2), (1, 2), (2, 1)] + ([] if ctx.quick() else [(4, 4), (2, 4), (5, 3), (3, 5), (4, 1), (6, 6)])
     terms = []
     def diagq(s, m, n):
         S = np.zeros((m, n), dtype=np.quaternion)
